@@ -29,17 +29,40 @@ def run_semantics_suite(ctx, n_cases: int) -> None:
         outs = [rng.random() < 0.5 for _ in range(nbp)]
         cases.append({"kind": "semantics", "nq": nq, "specs": specs, "outcomes": outs})
         circuits.append(c)
-        reqs.append(["kraus", nq, outs, ser.ser_stmts(c.ir.statements)])
+        reqs.append(semantics_request(cases[-1], c))
     mres = model.call_many(reqs)
-    for case, c, (margin, r) in zip(cases, circuits, mres):
-        ctx.seen(case, oracles.n_branch_points(c.ir.statements) > 0)
-        st, M = mat_from(r)
-        n = case["nq"]
-        want = oracles.kraus_ops(c.ir.statements, {q: q for q in range(n)}, [int(b) for b in case["outcomes"]])
-        if st != "ok":
-            ctx.disagree("semantics", case, f"formal semantics undefined ({M}) on a circuit the simulation accepts", margin)
-            continue
-        d = float(np.abs(M - want).max())
-        if d > 1e-9:
-            ctx.disagree("semantics", case, f"formal Kraus operator differs from the numpy simulation by {d:.3g}", margin)
+    for case, c, mr in zip(cases, circuits, mres):
+        check_semantics(ctx, case, c, mr)
     ctx.suite("semantics_vs_simulation", cases=len(cases))
+
+
+def semantics_request(case, c):
+    return ["kraus", case["nq"], case["outcomes"], ser.ser_stmts(c.ir.statements)]
+
+
+def check_semantics(ctx, case, c, mr) -> None:
+    margin, r = mr
+    ctx.seen(case, oracles.n_branch_points(c.ir.statements) > 0)
+    st, M = mat_from(r)
+    n = case["nq"]
+    want = oracles.kraus_ops(c.ir.statements, {q: q for q in range(n)}, [int(b) for b in case["outcomes"]])
+    if st != "ok":
+        ctx.disagree("semantics", case, f"formal semantics undefined ({M}) on a circuit the simulation accepts", margin)
+        return
+    d = float(np.abs(M - want).max())
+    if d > 1e-9:
+        ctx.disagree("semantics", case, f"formal Kraus operator differs from the numpy simulation by {d:.3g}", margin)
+
+
+def is_semantics(suite, case) -> bool:
+    return suite == "semantics" or (isinstance(case, dict) and case.get("kind") == "semantics")
+
+
+def replay(ctx, case) -> dict:
+    """re-run one case of the semantics suite (shared by every property whose run() starts with it)"""
+    from harness import framework
+
+    c = gen.build_circuit(case["nq"], 2, case["specs"])
+    mr, = model.call_many([semantics_request(case, c)])
+    check_semantics(ctx, case, c, mr)
+    return framework.replay_result(ctx)
